@@ -524,6 +524,24 @@ def run_check(prop, tier, seed, args):
     agg = Agg()
     assignments, orders = set(), set()
     t0 = time.time()
+    # real spawned anchors run beside the simulation batch: all of them in the thorough tier,
+    # a reduced set in the quick tier (separate address spaces are the one thing the
+    # thread-based process stub cannot provide)
+    import threading
+
+    want_anchors = None if (tier == "thorough" or os.environ.get("DSIM_ANCHORS") == "1") else \
+        (["plain_3_workers_odd_carry"] if prop == "C08" else ["callback_raises_mid", "worker_os_exit_7"])
+    if os.environ.get("DSIM_ANCHORS") == "0" or getattr(args, "runs", None):
+        want_anchors = []
+    anchor_proc = None
+    if want_anchors != []:
+        # a separate interpreter (no side thread in this process: the pool below is forked)
+        import subprocess, json as _json
+
+        env = dict(os.environ, DSIM_REAL="1")
+        anchor_proc = subprocess.Popen([sys.executable, "-W", "ignore", os.path.join(os.path.dirname(os.path.dirname(os.path.abspath(__file__))), "dsim_main.py"),
+                                        "--anchor-batch", prop, _json.dumps(want_anchors)], stdout=subprocess.PIPE, stderr=subprocess.PIPE,
+                                       text=True, env=env)
 
     def task(i):
         return run_one(prop, run_rng(prop, "P", seed, i), i)
@@ -578,11 +596,26 @@ def run_check(prop, tier, seed, args):
         print(f"  detail: {vv.detail}")
         rc = 1
     anchors = None
-    if rc == 0 and (tier == "thorough" or os.environ.get("DSIM_ANCHORS") == "1"):
-        # real spawned runs: conformance anchors for the process stub (DESIGN 2.8)
-        from .anchor import run_anchors
+    if anchor_proc is not None:
+        import json as _json
 
-        anchors = run_anchors(prop)
+        try:
+            so, se = anchor_proc.communicate(timeout=1200)
+        except Exception as e:
+            anchor_proc.kill()
+            print(f"HARNESS-ERROR real anchors did not complete: {e!r}", file=sys.stderr)
+            return 2
+        reals = None
+        for line in so.splitlines():
+            if line.startswith("ANCHOR-BATCH "):
+                reals = _json.loads(line[len("ANCHOR-BATCH "):])
+        if reals is None:
+            print(f"HARNESS-ERROR real anchors produced no result: {se[-600:]}", file=sys.stderr)
+            return 2
+        anchor_box = {"real": [tuple(x) for x in reals]}
+        from .anchor import compare_with_sim
+
+        anchors = compare_with_sim(prop, anchor_box["real"])
         for a in anchors:
             if a["real"].get("oracle_violation"):
                 payload = {"property": prop, "engine": "A", "seed": seed, "run_index": -2, "invariant": a["real"]["oracle_violation"]["inv"],
@@ -621,5 +654,5 @@ def run_check(prop, tier, seed, args):
                    extra={"distinct_item_to_worker_assignments": len(assignments), "distinct_per_worker_orders": len(orders),
                           "stop_reason": reason or "completed", "runs_requested": n_runs, "workers": workers, "tree_hash": boot.TREE_HASH,
                           "runs_reexecuted_for_determinism": nre,
-                          "real_spawned_anchors": anchors if anchors is not None else "thorough tier only"})
+                          "real_spawned_anchors": anchors if anchors is not None else "skipped (--runs given or DSIM_ANCHORS=0)"})
     return rc
